@@ -13,3 +13,28 @@ check("C17", "exploration",
       "Real handshakes over websocket and legacy transports against real gateway processes in all four {cookie auth, smart card} settings: quick samples 0..1023, all one/two-bit values and PRNG values plus version sweeps; thorough enumerates all 65536 capability values and all 65536 version pairs at four capability values. Response status, advertised bits, version echo and the fate of the tunnel afterwards are checked.",
       "trusted: lab codec and transports; cookie-auth settings run in openid mode, the others in ntlm mode with a stand-in authentication service",
       "DESIGN.md 4 C17")
+check("C06", "exploration",
+      "runtime monitoring: generator-keyed byte-stream exactness checker at client and backend boundaries of the race-instrumented real binary, delay points on the relay path",
+      "Tunnels with an open channel carry self-identifying streams of the boundary lengths and PRNG lengths in both directions at once, with packet sizes around every buffer boundary, lying payload-length fields, varied backend write sizes, pacing and hook delay points; bytes at the host must equal the concatenated declared payloads and the DATA packets at the client must be well-formed and reproduce the host's stream exactly. The gateway runs under the race detector.",
+      "trusted: lab codec/transports and generators; completeness is judged with a 20 s watchdog while the tunnel is verifiably still open (a correct relay needs milliseconds); streams up to 1 MiB (4 MiB thorough)",
+      "DESIGN.md 4 C06")
+check("C07", "exploration",
+      "runtime monitoring: per-tunnel reference-automaton check + generator-keyed attribution of every relayed byte + per-backend accept conservation under concurrent schedules (race build, delay points)",
+      "Rounds of 1..64 concurrent tunnels with distinct users, tokens, backends and scripts (sessions with streams, attempts on a neighbour's host, rejected cookies, out-of-order steps, legacy connection-id variants); each tunnel must behave as the automaton predicts for that tunnel alone, every byte must belong to the tunnel's own generators and every backend must have accepted exactly its own user's connections. Distinct interleaving signatures are counted.",
+      "trusted: lab drivers, stand-in IdP / authentication service, the hook delay points only widen windows that exist; schedules are sampled, not enumerated",
+      "DESIGN.md 4 C07")
+check("C08", "exploration",
+      "runtime monitoring: differential trace comparison (segmented vs canonical delivery) + reference automaton, raw-socket control over websocket frames, HTTP chunks and TCP writes",
+      "The same packet sequences are delivered under every 1-cut and 2-cut of the setup packets, 1-cuts across the session, coalescing of all and of pairs of packets, fixed unit sizes independent of packet boundaries, continuation frames, TCP write cuts and PRNG k-cuts on both transports; the trace (responses, dial events, bytes at the host) must equal the canonical delivery's and satisfy the automaton; unframeable streams must end the tunnel without any effect of what follows.",
+      "trusted: lab drivers; the kernel may still coalesce separately written segments (pacing is used to make separate reads likely, not certain)",
+      "DESIGN.md 4 C08")
+check("C09", "exploration",
+      "Go race detector (-race, implies checkptr) on the real binary under a hostile concurrent workload + runtime fatal-error scan + client-side frame integrity monitor",
+      "Rounds of 8..64 concurrent tunnels on both transports perform streams, CLOSE and out-of-order packets while the host is still streaming, keep-alive bursts, FIN/RST endings of every connection, connect/disconnect storms and simultaneous tunnel authorisations on fresh processes, with PRNG offsets and hook delay points; any race-detector report in the gateway process, any fatal error / panic / exit, and any client stream that does not parse into whole well-formed packets carrying its own host's bytes is a violation.",
+      "trusted: the race detector reports only races that occur in the executions produced; interleavings are sampled (distinct signatures are counted in the evidence)",
+      "DESIGN.md 4 C09")
+check("C11", "fault_enumeration",
+      "runtime monitoring: conservation at quiescence (backend EOF, client EOF, registry add/del hook events, goroutine dump via hook listener, public gauges) over the complete cell table point x ending x transport, race build",
+      "All 96 cells {8 points of the exchange} x {CLOSE_CHANNEL, out-of-order packet, unframeable bytes, FIN/RST of websocket, of legacy IN, of legacy OUT} x transport are executed R times with pacing and delay points; after every ending the host connection and all client-facing connections must reach EOF/RST, and at quiescence the registry events balance, no goroutine remains in the gateway's protocol/transport packages and the gauges are back at the baseline.",
+      "bounded progress restatement of 'within a bounded time': 15 s watchdog (a correct release takes milliseconds, a leak is permanent because the lab's backends never hang up first); goroutine attribution by package name in the dump",
+      "DESIGN.md 4 C11")
